@@ -365,6 +365,62 @@ pub fn run(ctx: &mut Ctx) {
                 let (s1, s2) = (sexp::ty(&svc), sexp::env(&env3));
                 ctx.emit(&format!("sub.compat2\t{e}\t{s1}\t{s2}\t{s1}"), true);
                 ctx.emit(&format!("sub.compat2\t{s2}\t{s1}\t{e}\t{s1}"), true);
+                // … and reached through a definition only ONE side has (a name the two environments do not share,
+                // whose body mentions names they do share): merging must still bind those to the side they came from
+                for target in g.names.iter().take(3) {
+                    let only = "zz_only".to_string();
+                    let svc_only: Type = TypeInner::Service(vec![(
+                        "zz".to_string(),
+                        TypeInner::Func(candid::types::Function {
+                            modes: vec![],
+                            args: vec![],
+                            rets: vec![TypeInner::Var(only.clone()).into()],
+                        })
+                        .into(),
+                    )])
+                    .into();
+                    let svc_t: Type = TypeInner::Service(vec![(
+                        "zz".to_string(),
+                        TypeInner::Func(candid::types::Function {
+                            modes: vec![],
+                            args: vec![],
+                            rets: vec![TypeInner::Var(target.clone()).into()],
+                        })
+                        .into(),
+                    )])
+                    .into();
+                    // the one-sided definition wraps the shared name, so the shared name is always reached
+                    let wrap_body: Type = TypeInner::Record(vec![Field {
+                        id: candid::types::Label::Named("x".to_string()).into(),
+                        ty: TypeInner::Var(target.clone()).into(),
+                    }])
+                    .into();
+                    let wrap_t: Type = TypeInner::Record(vec![Field {
+                        id: candid::types::Label::Named("x".to_string()).into(),
+                        ty: TypeInner::Var(target.clone()).into(),
+                    }])
+                    .into();
+                    let svc_wrapped: Type = TypeInner::Service(vec![(
+                        "zz".to_string(),
+                        TypeInner::Func(candid::types::Function { modes: vec![], args: vec![], rets: vec![wrap_t] }).into(),
+                    )])
+                    .into();
+                    let _ = svc_t;
+                    let mut old_env = env3.clone();
+                    old_env.0.insert(only.clone(), wrap_body.clone());
+                    let mut new_env_only = env.clone();
+                    new_env_only.0.insert(only.clone(), wrap_body);
+                    // old side has the extra name
+                    ctx.emit(
+                        &format!("sub.compat2\t{e}\t{}\t{}\t{}", sexp::ty(&svc_wrapped), sexp::env(&old_env), sexp::ty(&svc_only)),
+                        true,
+                    );
+                    // new side has the extra name
+                    ctx.emit(
+                        &format!("sub.compat2\t{}\t{}\t{s2}\t{}", sexp::env(&new_env_only), sexp::ty(&svc_only), sexp::ty(&svc_wrapped)),
+                        true,
+                    );
+                }
             }
             let names = g.names.clone();
             let mut r2 = crate::Rng(ctx.rng.next());
